@@ -2,8 +2,11 @@ import FrappyModel.Small.Scan
 /-
 Model of the control hand-over mixins `frappy/mixins.py:26-116` (`HasControlledBy`, `HasOutputModule`).
 
-One output module and `n` input modules `0 … n-1` (registered in this order by `register_input`).
-`cb` is the output's `controlled_by` (`none` = `self`), `act i` the `control_active` flag of input `i`.
+A node with several output modules `0 … nout-1` and `n` input modules `0 … n-1`; input `i` is attached to output
+`outOf i` (`output_module`), the inputs register at their output in the order of their numbers (`initModule` →
+`register_input`).  Every output has its OWN registry `inputCallbacks` (an instance attribute created by the first
+`register_input`).  `cb o` is the `controlled_by` of output `o` (`none` = `self`), `act i` the `control_active`
+flag of input `i`.
 
     HasOutputModule.activate_control():    for name, deactivate in out.inputCallbacks.items():
                                                if name != self.name: deactivate(self.name)
@@ -24,67 +27,84 @@ nobody is switched off there.
 -/
 namespace Frappy.Control
 
+/-- the wiring of a node -/
+structure Cfg where
+  n : Nat                 -- number of input modules
+  nout : Nat              -- number of output modules
+  outOf : Nat → Nat       -- the output an input is attached to
+
 inductive Ev
-  | cb (c : Option Nat)               -- update of `controlled_by`
+  | cb (o : Nat) (c : Option Nat)     -- update of `controlled_by` of output `o`
   | act (i : Nat) (b : Bool)          -- update of `control_active` of input `i`
   deriving Repr, DecidableEq, Inhabited
 
 structure St where
-  cb : Option Nat
+  cb : Nat → Option Nat
   act : Nat → Bool
   evs : List Ev := []
   ok : Bool := true
 
 def emit (s : St) (e : Ev) : St := { s with evs := s.evs ++ [e] }
 
+/-- the registry of output `o`: the names of its inputs in registration order -/
+def inputsOf (cfg : Cfg) (o : Nat) : List Nat := (List.range cfg.n).filter (fun i => cfg.outOf i == o)
+
 /-- `deactivate_control` of input `i` -/
 def deactivate (i : Nat) (s : St) : St :=
   if s.act i then emit { s with act := fun j => if j = i then false else s.act j } (.act i false) else s
 
-/-- the loop over `inputCallbacks` (registration order), skipping `skip` -/
+/-- the loop over an `inputCallbacks` registry (registration order), skipping `skip` -/
 def deactivateAll (skip : Option Nat) : List Nat → St → St
   | [], s => s
   | i :: is, s => deactivateAll skip is (if skip = some i then s else deactivate i s)
 
+/-- `out.controlled_by = c` -/
+def setCb (o : Nat) (c : Option Nat) (s : St) : St :=
+  emit { s with cb := fun o' => if o' = o then c else s.cb o' } (.cb o c)
+
 /-- `activate_control` of input `k` -/
-def activate (n k : Nat) (s : St) : St :=
-  let s1 := deactivateAll (some k) (List.range n) s
-  let s2 := emit { s1 with cb := some k } (.cb (some k))
+def activate (cfg : Cfg) (k : Nat) (s : St) : St :=
+  let s1 := deactivateAll (some k) (inputsOf cfg (cfg.outOf k)) s
+  let s2 := setCb (cfg.outOf k) (some k) s1
   emit { s2 with act := fun j => if j = k then true else s2.act j } (.act k true)
 
-/-- `self_controlled` of the output -/
-def selfControlled (n : Nat) (s : St) : St :=
-  match s.cb with
+/-- `self_controlled` of output `o` -/
+def selfControlled (cfg : Cfg) (o : Nat) (s : St) : St :=
+  match s.cb o with
   | none => s
-  | some _ => deactivateAll none (List.range n) (emit { s with cb := none } (.cb none))
+  | some _ => deactivateAll none (inputsOf cfg o) (setCb o none s)
 
 inductive Op
   | writeIn (k : Nat) (guarded : Bool)   -- client `change in_k:target`; the body calls activate_control (guarded: only if not active)
-  | writeOut                              -- client `change out:target`; the body calls self_controlled
+  | writeOut (o : Nat)                    -- client `change out_o:target`; the body calls self_controlled
   | activate (k : Nat)                    -- driver-side calls
   | deactivate (k : Nat)
-  | selfControlled
-  | updateTarget (k : Nat)                -- `out.update_target(in_k.name, v)`
+  | selfControlled (o : Nat)
+  | updateTarget (o : Nat) (k : Nat)      -- `out_o.update_target(in_k.name, v)`
   deriving Repr, DecidableEq, Inhabited
 
-def step (n : Nat) (s : St) : Op → St
+def validIn (cfg : Cfg) (k : Nat) : Bool := decide (k < cfg.n) && decide (cfg.outOf k < cfg.nout)
+
+def step (cfg : Cfg) (s : St) : Op → St
   | .writeIn k guarded =>
-    if k < n then (if guarded && s.act k then s else activate n k s) else { s with ok := false }
-  | .writeOut => selfControlled n s
-  | .activate k => if k < n then activate n k s else { s with ok := false }
-  | .deactivate k => if k < n then deactivate k s else { s with ok := false }
-  | .selfControlled => selfControlled n s
-  | .updateTarget k => if k < n then s else { s with ok := false }
+    if validIn cfg k then (if guarded && s.act k then s else activate cfg k s) else { s with ok := false }
+  | .writeOut o => if o < cfg.nout then selfControlled cfg o s else { s with ok := false }
+  | .activate k => if validIn cfg k then activate cfg k s else { s with ok := false }
+  | .deactivate k => if validIn cfg k then deactivate k s else { s with ok := false }
+  | .selfControlled o => if o < cfg.nout then selfControlled cfg o s else { s with ok := false }
+  | .updateTarget o k =>
+    -- an output nobody registered at still has the class attribute `inputCallbacks = ()`: `().get` raises
+    if o < cfg.nout && validIn cfg k && !(inputsOf cfg o).isEmpty then s else { s with ok := false }
 
 /-- one operation of a history: the update stream and the outcome flag are per operation -/
-def step1 (n : Nat) (s : St) (op : Op) : St := step n { s with evs := [], ok := true } op
+def step1 (cfg : Cfg) (s : St) (op : Op) : St := step cfg { s with evs := [], ok := true } op
 
 /-- states after each operation (the quiescent points) -/
-def run (n : Nat) (s : St) (ops : List Op) : List St := Frappy.Scan.scan (step1 n) s ops
+def run (cfg : Cfg) (s : St) (ops : List Op) : List St := Frappy.Scan.scan (step1 cfg) s ops
 
 /-- state after a whole history -/
-def exec (n : Nat) (s : St) (ops : List Op) : St := ops.foldl (step1 n) s
+def exec (cfg : Cfg) (s : St) (ops : List Op) : St := ops.foldl (step1 cfg) s
 
-def init : St := { cb := none, act := fun _ => false }
+def init : St := { cb := fun _ => none, act := fun _ => false }
 
 end Frappy.Control
